@@ -134,7 +134,10 @@ def cases(draw, name, nmax, give_start=None):
         else:
             kind = "sign"
     W = draw(matrix(kind, nmax))
+    if np.all((W == 0) | (W == 1)) and draw(st.integers(0, 3)) == 0:
+        W = W.astype(np.int64)          # 0/1 matrices are often stored as integers
     case["W"] = W
+    case["order"] = draw(st.sampled_from(gen.ORDERS))
     n = len(W)
     if kind == "sign":
         case["qtype"] = draw(st.sampled_from(QTYPES))
@@ -163,28 +166,31 @@ def cases(draw, name, nmax, give_start=None):
 def call(case, ctx, ci0="case"):
     name = case["fn"]
     fn = getattr(bct, name)
-    W = np.array(case["W"], dtype=float)
+    W = np.array(case["W"])
+    if W.dtype.kind not in "iu":
+        W = W.astype(float)
+    W = gen.layout(W, case.get("order"))
     g = case["gamma"]
     seed = case["seed"]
     start = case.get("ci0") if isinstance(ci0, str) else ci0
     start = None if start is None else np.array(start)
     with MoveRecorder() as rec:
         if name == "community_louvain":
-            o = ctx.call(fn, W.copy(), gamma=g, ci=(None if start is None else start.copy()), B=case["objective"], seed=seed)
+            o = ctx.call(fn, gen.layout(W.copy(), case.get("order")), gamma=g, ci=(None if start is None else start.copy()), B=case["objective"], seed=seed)
         elif name in ("modularity_louvain_und", "modularity_louvain_dir"):
-            o = ctx.call(fn, W.copy(), gamma=g, hierarchy=case.get("hierarchy", False), seed=seed)
+            o = ctx.call(fn, gen.layout(W.copy(), case.get("order")), gamma=g, hierarchy=case.get("hierarchy", False), seed=seed)
         elif name == "modularity_louvain_und_sign":
-            o = ctx.call(fn, W.copy(), gamma=g, qtype=case["qtype"], seed=seed)
+            o = ctx.call(fn, gen.layout(W.copy(), case.get("order")), gamma=g, qtype=case["qtype"], seed=seed)
         elif name in ("modularity_finetune_und", "modularity_finetune_dir"):
-            o = ctx.call(fn, W.copy(), ci=(None if start is None else start.copy()), gamma=g, seed=seed)
+            o = ctx.call(fn, gen.layout(W.copy(), case.get("order")), ci=(None if start is None else start.copy()), gamma=g, seed=seed)
         elif name == "modularity_finetune_und_sign":
-            o = ctx.call(fn, W.copy(), qtype=case["qtype"], gamma=g, ci=(None if start is None else start.copy()), seed=seed)
+            o = ctx.call(fn, gen.layout(W.copy(), case.get("order")), qtype=case["qtype"], gamma=g, ci=(None if start is None else start.copy()), seed=seed)
         elif name == "modularity_probtune_und_sign":
-            o = ctx.call(fn, W.copy(), qtype=case["qtype"], gamma=g, ci=(None if start is None else start.copy()), p=case["p"], seed=seed)
+            o = ctx.call(fn, gen.layout(W.copy(), case.get("order")), qtype=case["qtype"], gamma=g, ci=(None if start is None else start.copy()), p=case["p"], seed=seed)
         elif name in ("modularity_und", "modularity_dir"):
-            o = ctx.call(fn, W.copy(), gamma=g, kci=(None if start is None else start.copy()))
+            o = ctx.call(fn, gen.layout(W.copy(), case.get("order")), gamma=g, kci=(None if start is None else start.copy()))
         elif name == "modularity_und_sign":
-            o = ctx.call(fn, W.copy(), start.copy(), qtype=case["qtype"])
+            o = ctx.call(fn, gen.layout(W.copy(), case.get("order")), start.copy(), qtype=case["qtype"])
         else:
             raise ValueError(name)
     return o, rec
